@@ -6,10 +6,11 @@ Driver for the enum area: decodes one case, prints the region and the model / sp
   (case <id> c04    (type "T" s|u <bits> [int]) (blocks B…) (win v…) (stale (<label> ("Name" v)…)…))
   (case <id> c12    (type …) (flags json text sql gorm) (blocks B…) (target v) (strs "s"…)
                     (jsons (str "s")|null|other …) (sqls (bytes "s")|other …) (ints (<TV kind> v…)…) (encs v…))
+  (case <id> c12v   (type …) (blocks B…) (target v) (strs "s"…))
   (case <id> c12t   (type …) (blocks B…) (ints (<TV kind> v…)…))
   (case <id> c14    (type …) (blocks B…) (hi N) (neg v…))
   (case <id> c14raw (type …) (blocks B…))
-  (case <id> c01enum (flags …) (mode type|list|file|star) (types ("T" <kind> [sel])…) (blocks B…))      -- C01 leg
+  (case <id> c01enum (flags …) (mode type|list|file|star) (types ("T" <kind> [sel])…) (blocks B…) [(locals B…)] [(idents "n"…)])      -- C01 leg
   B = (b S…)   S = (s (n "A" "B"…) (t "T" [q])|(c)|(e -|"T") (v 1 2…))     q: the type is not a plain identifier
   every enum case may carry (locals B…): the const declarations inside function bodies
 -/
@@ -134,6 +135,7 @@ def parseJsonIn : Sexp → Option JsonIn
 def parseSqlIn : Sexp → Option SqlIn
   | .atom "other" => some .other
   | .list [.atom "bytes", .atom s] => some (.bytes (nm s))
+  | .list [.atom "str", .atom s] => some (.str (nm s))
   | _ => none
 
 def showDec (d : Bool × Int) : String := (if d.1 then "ok " else "err ") ++ toString d.2
@@ -249,6 +251,27 @@ def c12tCase (id : String) (payload : List Sexp) : List String :=
         (ints.map (fun (n, _, v) => (s!"isenum:{n}:{v}", toString (specIsEnum i.decl v)))) reg
     | _ => both id [] [] "Out"
 
+/-- `(case <id> c12v (type …) (blocks B…) (target v) (strs "s"…))`: the -sql pair through the very
+    driver.Value it produces: Scan(Value(c)) for every declared c (`sql.rtv:<c>`) and Scan(string) -/
+def c12vCase (id : String) (payload : List Sexp) : List String :=
+  let p := Sexp.list (.atom "p" :: payload)
+  match parseInput p with
+  | none => err id "bad-enum-case"
+  | some i =>
+    let target := (intsOf p "target").headD 0
+    let strs := ((p.field? "strs").map (·.args)).getD [] |>.filterMap (fun a => a.asAtom?.map nm)
+    let reg := if !WF i then "Out" else if F_sql_value_string true then "F_sql_value_string" else "WF"
+    match gen i.kind i.T i.allBlocks with
+    | .file cs =>
+      let vm := valueMap i.T cs
+      both id
+        ((valuesT cs).map (fun x => (s!"sql.rtv:{x}", showDec (scan vm (.str (encode i.kind i.T cs x).text) target).obs))
+          ++ (enumerate strs).map (fun (j, s) => (s!"sql.sdec:{j}", showDec (scan vm (.str s) target).obs)))
+        ((specValues i.decl).map (fun x => (s!"sql.rtv:{x}", showDec (true, x)))
+          ++ (enumerate strs).map (fun (j, s) => (s!"sql.sdec:{j}", showDec (specDecode i.T i.decl (some s) target))))
+        reg
+    | _ => both id [] [] "Out"
+
 /-! ### C14 -/
 
 def showBV {w} (signed : Bool) (x : BitVec w) : String := toString (Bit.decOf signed x)
@@ -326,7 +349,9 @@ def c01enumCase (id : String) (payload : List Sexp) : List String :=
     let locals := match p.field? "locals" with
       | some l => (l.args.mapM (fun (bl : Sexp) => bl.args.mapM parseSpec)).getD []
       | none => []
-    let pc : PkgCase := { bit := fl.hasFlag "bit", sql := fl.hasFlag "sql", gorm := fl.hasFlag "gorm",
+    let idents := ((p.field? "idents").map (·.args)).getD [] |>.filterMap (fun a => a.asAtom?.map nm)
+    let pc : PkgCase := { bit := fl.hasFlag "bit", json := fl.hasFlag "json", text := fl.hasFlag "text",
+                          sql := fl.hasFlag "sql", gorm := fl.hasFlag "gorm", idents := idents,
                           types := selected, blocks := blocks, locals := locals, wellFormed := wf }
     let (ex, written, comp) := c01Model pc
     let model : List (String × String) :=
